@@ -103,6 +103,8 @@ def random_config(rng, max_w=16, max_h=8):
         first_pic_num=rng.choice([None, 0, 0, 2, 1000, (1 << 32) - 2, (1 << 32) - 1]),
         nseq=rng.choice([1, 1, 1, 2]),
     )
+    # colour specification (some presets need major_version 3)
+    cfg["color"] = [rng.randrange(5), rng.randrange(5), rng.randrange(6)] if rng.random() < 0.25 else None
     if rng.random() < 0.3:
         cfg["extras"] = [
             [rng.randrange(1, 6), rng.choice(["pad", "aux"]), rng.choice([0, 0, 1, 2, 5, 13, 20]), rng.randrange(256)]
@@ -110,7 +112,7 @@ def random_config(rng, max_w=16, max_h=8):
         ]
     else:
         cfg["extras"] = None
-    if rng.random() < 0.2:
+    if rng.random() < 0.3:
         # mixed-geometry sequence: further pictures coded with other transform
         # parameters / slice counts / fragmentation (legal: they are per picture)
         m_asym = rng.random() < 0.25
@@ -168,6 +170,10 @@ def qm_to_dict(values, depth, depth_ho):
 
 
 def build_codec_features(cfg):
+    if cfg.get("base"):
+        # a real base video format, untouched (for the real level tables)
+        vp = set_source_defaults(BaseVideoFormats[cfg["base"]])
+        return _codec_features(cfg, vp)
     vp = set_source_defaults(BaseVideoFormats.hd1080p_50)
     vp["frame_width"] = cfg["w"]
     vp["frame_height"] = cfg["h"]
@@ -183,6 +189,17 @@ def build_codec_features(cfg):
     vp["color_diff_excursion"] = cfg["cd_exc"]
     vp["frame_rate_numer"] = 1
     vp["frame_rate_denom"] = 1
+    col = cfg.get("color")
+    if col:
+        from vc2_data_tables import PresetColorPrimaries, PresetColorMatrices, PresetTransferFunctions
+
+        vp["color_primaries_index"] = PresetColorPrimaries(col[0])
+        vp["color_matrix_index"] = PresetColorMatrices(col[1])
+        vp["transfer_function_index"] = PresetTransferFunctions(col[2])
+    return _codec_features(cfg, vp)
+
+
+def _codec_features(cfg, vp):
     return CodecFeatures(
         name="sim",
         level=Levels(cfg["level"]),
@@ -259,9 +276,9 @@ def encode_sequences(cfg):
         cf2 = build_codec_features(c2)
     for s in range(cfg.get("nseq", 1)):
         pics = make_pictures(cfg, s)
-        if cf2 is not None and len(pics) >= 2 and cfg.get("first_pic_num") is None:
+        if cf2 is not None and len(pics) >= 2:
             # first half coded with the main parameters, second half with the
-            # other ones; picture numbers are left to autofill
+            # other ones (picture numbers, if explicit, stay consecutive)
             k = len(pics) // 2
             if cfg["pcm"] == 1:
                 k -= k % 2
@@ -327,11 +344,20 @@ def draw_encodable_config(rng, tries=30, **kw):
     return minimal_config()
 
 
+def qsif_config(profile, frag, wavelet=1, pic_seed=1):
+    """QSIF525 (176x120, 4:2:0, 8 bit): admitted by the REAL level 1 table."""
+    return OrderedDict(
+        base="qsif525", profile=profile, level=1, pcm=0, w=176, h=120, cdf=2, luma_exc=255, luma_off=0, cd_exc=255, cd_off=128,
+        wavelet=wavelet, wavelet_ho=wavelet, depth=2, depth_ho=0, sx=2, sy=3, frag=frag, lossless=False,
+        picture_bytes=(6 * 60 if profile == 3 else 6 * 40), qm=None, npics=1, pic_kind="noise", pic_seed=pic_seed, first_pic_num=None, nseq=1, extras=None, mix=None, color=None,
+    )
+
+
 def minimal_config():
     return OrderedDict(
         profile=3, level=0, pcm=0, w=8, h=4, cdf=0, luma_exc=255, luma_off=0, cd_exc=255, cd_off=128,
         wavelet=4, wavelet_ho=4, depth=1, depth_ho=0, sx=2, sy=1, frag=0, lossless=False, picture_bytes=24,
-        qm=None, npics=1, pic_kind="noise", pic_seed=1, first_pic_num=None, nseq=1, extras=None, mix=None,
+        qm=None, npics=1, pic_kind="noise", pic_seed=1, first_pic_num=None, nseq=1, extras=None, mix=None, color=None,
     )
 
 
